@@ -381,6 +381,9 @@ func (r *Renderer) renderHTMLBlock(
 			for i := 0; i < l; i++ {
 				line := n.Lines().At(i)
 				r.Writer.SecureWrite(w, line.Value(source))
+				if i == l-1 && !n.HasClosure() {
+					r.endRawLine(w, line.Value(source))
+				}
 			}
 		} else {
 			_, _ = w.WriteString("<!-- raw HTML omitted -->\n")
@@ -390,12 +393,20 @@ func (r *Renderer) renderHTMLBlock(
 			if r.Unsafe {
 				closure := n.ClosureLine
 				r.Writer.SecureWrite(w, closure.Value(source))
+				r.endRawLine(w, closure.Value(source))
 			} else {
 				_, _ = w.WriteString("<!-- raw HTML omitted -->\n")
 			}
 		}
 	}
 	return ast.WalkContinue, nil
+}
+
+// endRawLine ends the last line of an HTML block that ends the input without a line ending.
+func (r *Renderer) endRawLine(w util.BufWriter, line []byte) {
+	if len(line) != 0 && line[len(line)-1] != '\n' {
+		_ = w.WriteByte('\n')
+	}
 }
 
 // ListAttributeFilter defines attribute names which list elements can have.
